@@ -62,7 +62,7 @@ func appendUniq(set []string, adds ...string) []string {
 			return set
 		}
 		set = append(set, "") // increase
-		copy(set[i+1:], set[i:])
+		copy(set[pos+1:], set[pos:])
 		set[pos] = adds[i]
 	}
 	return set
